@@ -243,9 +243,8 @@ def stepG (divPanics : Bool) (w : List String) : String :=
 
 end
 
-/-- first group tag occurring in the line decides the carrier -/
-def step (line : String) : String :=
-  let w := words line
+/-- one self-contained case: the first group tag occurring in the line decides the carrier -/
+def stepOne (w : List String) : String :=
   match w with
   | _ :: a :: _ =>
     match tagOf a with
@@ -253,6 +252,18 @@ def step (line : String) : String :=
     | some 1 => stepG (q := ed25519Order) false w
     | _ => "bad-op"
   | _ => "bad-op"
+
+/-- a HISTORY of recoveries (`hist c₁|c₂|…`, `cᵢ = poly~beta~n~selectors` = the arguments of an `rt`
+case): the functions of `share/poly.go` are functions of their arguments only (the package has no
+mutable package-level variable: `Gen.PkgVars.share`, pinned by `c09_no_package_state`), so the model
+of a history is the list of the models of its calls – `histOut` is a `map`. -/
+def histOut (calls : List String) : List String :=
+  calls.map fun c => stepOne ("rt" :: c.splitOn "~")
+
+def step (line : String) : String :=
+  match words line with
+  | ["hist", calls] => String.intercalate " | " (histOut (calls.splitOn "|"))
+  | w => stepOne w
 
 end Share
 end Dos
